@@ -113,3 +113,6 @@ THEOREMS_C16B = ["C16b." + t for t in """rpa_product_selfadjoint rpa_eigenvalues
 rpa_pair_common_flip rpa_norm_blind_to_X_flip flip_X_only_breaks_solution flip_X_only_stable rpa_pair_norm_pos exists_min_eigenpair card_le_card_eigenvalues_le sqrtMat_isSymm sqrtMat_mul_self
 symProd_eig_to_rpa rpa_eig_to_symProd symProd_charpoly symProd_eigenvalue_isRPAEig symProd_eigenvalues_pos rpa_lowest_variational rpa_lowest_le_cis_lowest rpa_count_ge_cis_count
 rpa_le_cis_all_roots rpa_code_amplitudes ex_sum_posDef ex_diff_posDef""".split()]
+THEOREMS_C19B = ["C19b." + t for t in """pairG_dropped oneCentreG_decoupled fock_blockdiag energy_additive_blockdiag energy_additive_any_density total_energy_additive commutator_blockdiag
+stationary_of_fragments fragments_of_stationary aufbau_rayleigh aufbau_unique_of_gap aufbauP_fromBlocks aufbauData_fromBlocks aufbau_of_fragments aufbau_of_fragments_fermi alignment_of_aufbau
+aufbau_iff_aligned aufbau_needs_level_alignment forces_decouple""".split()]
